@@ -83,6 +83,20 @@ func realClusters(r *ev.Run, depth int) {
 		det := map[string]interface{}{"scenario": cx.PathString(sc.Events), "trailingLogs": sc.TrailingLogs, "events": sc.Events}
 		res, bad := cx.Run(filepath.Join(base, fmt.Sprintf("cl%d", i)), sc)
 		r.Eval(1)
+		slow := bad == "the cluster process hangs"
+		if res != nil {
+			for _, p := range res.Problems {
+				if strings.Contains(p, "does not catch up") {
+					slow = true
+				}
+			}
+		}
+		if slow {
+			// waiting is the only wall-clock oracle here: before it is believed the scenario runs once
+			// more with four times the patience (an overloaded machine is not a defect of QED)
+			r.Extra("real_cluster_second_runs", 1)
+			res, bad = cx.RunPatient(filepath.Join(base, fmt.Sprintf("cl%d-again", i)), sc, true)
+		}
 		if bad != "" {
 			r.Violation("[C06] real cluster: "+bad, det)
 			return
